@@ -66,7 +66,9 @@ vfps::Impedance &vfps::Impedance::operator=(vfps::Impedance other)
 
 vfps::Impedance &vfps::Impedance::operator+=(const vfps::Impedance &rhs)
 {
-    for (size_t i=0; i<_nfreqs; i++) {
+    // rhs may hold fewer samples (e.g. a table read from a file): add what is there
+    const size_t n = std::min(_nfreqs,rhs._data.size());
+    for (size_t i=0; i<n; i++) {
         _data[i] += rhs._data[i];
     }
     #if INOVESA_USE_OPENCL == 1
